@@ -39,15 +39,17 @@ Counts(r, v) == \A k \in Keys(r) : v.count[k] = (IF v.agg THEN (IF v.mult[k] > 0
 AsFunctionSays(r, v) == \A k \in Keys(r) : v.mult[k] > 0 => v.place[k] = v.want[k]
 
 \* part[n] as learned from the first keyed variant with n shards in which key k was fed
-KeyedWith(r, n) == {j \in DOMAIN r.variants : r.variants[j].keyed /\ r.variants[j].n = n /\ r.variants[j].err = ""}
+\* (v.pfx: the number of leading columns that are the key for that consumer; a key identity of the record then
+\* stands for all identities sharing those columns, and part[n] is learned per key width)
+KeyedWith(r, n, p) == {j \in DOMAIN r.variants : r.variants[j].keyed /\ r.variants[j].n = n /\ r.variants[j].pfx = p /\ r.variants[j].err = ""}
 First(S) == CHOOSE j \in S : \A i \in S : j <= i
-LearnedSlow(r, n, k) ==
-  LET js == {j \in KeyedWith(r, n) : r.variants[j].mult[k] > 0}
+LearnedSlow(r, n, p, k) ==
+  LET js == {j \in KeyedWith(r, n, p) : r.variants[j].mult[k] > 0}
   IN IF js = {} THEN -1 ELSE r.variants[First(js)].place[k]
 Agree(r, v) ==
-  LET ref == r.variants[First(KeyedWith(r, v.n))] IN   \* v itself is in the set
+  LET ref == r.variants[First(KeyedWith(r, v.n, v.pfx))] IN   \* v itself is in the set
   \A k \in Keys(r) : v.mult[k] > 0 =>
-     v.place[k] = (IF ref.mult[k] > 0 THEN ref.place[k] ELSE LearnedSlow(r, v.n, k))
+     v.place[k] = (IF ref.mult[k] > 0 THEN ref.place[k] ELSE LearnedSlow(r, v.n, v.pfx, k))
 
 JudgeVariant(r, j) ==
   LET v == r.variants[j] IN
